@@ -478,13 +478,10 @@ class FNode(object):
             # Return width defined in the declaration
             return cast(types._BVType, cast(types._FunctionType, self.function_name().symbol_type()).return_type).width
         elif self.is_ite():
-            # Take the width of the left child (the right child has the
-            # same width if the node is well-formed). Nested ITEs are
-            # followed iteratively to avoid recursing on deep formulae
-            node = self.arg(1)
-            while node.is_ite():
-                node = node.arg(1)
-            return node.bv_width()
+            # The type checker knows (and memoizes) the type of the
+            # node: following a chain of nested ITEs on every call
+            # makes building the chain quadratic
+            return cast(types._BVType, self.get_type()).width
         elif self.is_select():
             # This must be a select over an array with BV value type
             ty = self.arg(0).get_type()
